@@ -84,13 +84,17 @@ class BaseFiles(Generic[Interface]):
         if not if_none_match:
             return False
 
-        if if_none_match == "*":
+        if if_none_match.strip() == "*":
             return True
 
-        if if_none_match.startswith("W/"):
-            if_none_match = if_none_match[2:]
-
-        return any(etag == i.strip().strip('"') for i in if_none_match.split(","))
+        # Weak comparison: every member of the list may carry the W/ prefix.
+        for tag in if_none_match.split(","):
+            tag = tag.strip()
+            if tag.startswith("W/"):
+                tag = tag[2:]
+            if etag == tag.strip('"'):
+                return True
+        return False
 
     def if_modified_since(self, last_modified: float, if_modified_since: str) -> bool:
         try:
